@@ -543,8 +543,14 @@ impl BatchSemaphore {
                 for waiter in &state.waiters {
                     let available = state.permits_available.available();
                     // Skip stale waiters: the task that registered the waiter
-                    // has finished, so there is nothing to block.
-                    if available < waiter.num_permits && s.try_get(waiter.task_id()).is_some_and(|t| !t.finished()) {
+                    // has finished, so there is nothing to block. Also skip waiters
+                    // of the running task: it is not suspended on them right now (it
+                    // just acquired permits through another request), and blocking it
+                    // would stop it from ever being scheduled again.
+                    if available < waiter.num_permits
+                        && waiter.task_id() != s.current().id()
+                        && s.try_get(waiter.task_id()).is_some_and(|t| !t.finished())
+                    {
                         // Block this waiter: it cannot succeed (there are not
                         // enough permits available); its `poll` would return
                         // without resolving.
